@@ -24,6 +24,9 @@ CARRIERS = [
     ("mips", "li $t0, {X}", True, dict(set=[], lt=65536, short=4, long=8), False),
     ("riscv", "li t0, {X}", False, dict(set=[], lt=2048, short=4, long=8), False),
     ("68000", "move.w {X}, d0", True, dict(set=[], lt=32768, short=4, long=6), False),
+    ("68000", "move.w ({X}), d0", True, dict(set=[], lt=65536, short=4, long=6), False),
+    ("6809", "lda {X},x", True, dict(set=[], lt=128, short=2, long=3), False),
+    ("z80", "ld a, ({X})", False, dict(set=[], lt=65536, short=3, long=3), False),
 ]
 
 
@@ -107,7 +110,7 @@ def run(tier, seed):
         else:
             cs = CARRIERS[:2] + [CARRIERS[2 + i % (len(CARRIERS) - 2)]]
         for cpu, tmpl, big, rule, modelled in cs:
-            cid = "%d.%s" % (i, cpu)
+            cid = "%d.%s.%d" % (i, cpu, CARRIERS.index((cpu, tmpl, big, rule, modelled)))
             src = render(p, cpu, tmpl)
             meta[cid] = (i, cpu, big, rule, modelled, src)
             cases.append((cid, "imgmax=8192", src))
@@ -165,7 +168,19 @@ def run(tier, seed):
                        "labels %s are placed in pass 2 where they were not bound in pass 1 (.%s)\n%s" % (v["drift"], cpu, src), payload)
         else:
             # other carriers: the same scope defect is keyed per carrier only when the program uses scopes
-            if any(s["k"] == "scope" for s in progs[i]) and not modelled:
+            def forward_ref(p):
+                defined = set()
+                for st in p:
+                    if st["k"] == "label":
+                        defined.add(st["n"])
+                    elif st["k"] == "insn" and "s" in st["r"] and st["r"]["s"] not in defined:
+                        return True
+                return False
+            if not modelled and forward_ref(progs[i]):
+                tm = [c[1] for c in CARRIERS if c[0] == cpu][int(cid.split(".")[-1]) - [c[0] for c in CARRIERS].index(cpu)]
+                chk.report("TwoPass.ForwardReferenceShrinksInPass2@%s:%s" % (cpu, tm),
+                           "labels %s drift between passes on .%s (forward reference, no scopes)\n%s" % (v["drift"], cpu, src), payload)
+            elif any(s["k"] == "scope" for s in progs[i]) and not modelled:
                 chk.report("TwoPass.ScopeLookupDiffersBetweenPasses@" + cpu,
                            "labels %s drift between passes on .%s\n%s" % (v["drift"], cpu, src), payload)
             else:
